@@ -333,6 +333,22 @@ func c16Scenarios(thorough bool) []vScn {
 			}
 		})
 	}
+	// the same through UpdateExportOptions (tuning and policy in one call)
+	updateExport := func(w *rqWorld, name string, mut func(o *ExportOptions), after func()) {
+		vsched.GoNamed(name, func() {
+			who := vsched.CurrentName()
+			w.ev("update-start", who)
+			o := w.e.nfs.GetExportOptions()
+			mut(&o)
+			if err := w.e.nfs.UpdateExportOptions(o); err != nil {
+				w.ev("update-error:"+err.Error(), who)
+			}
+			w.ev("update-return", who)
+			if after != nil {
+				after()
+			}
+		})
+	}
 	base := ExportOptions{AttrCacheTimeout: 1}
 	scns := []vScn{
 		mk("S1-write-vs-readonly", base, func(w *rqWorld) ([]string, []string, map[string]string) {
@@ -363,6 +379,17 @@ func c16Scenarios(thorough bool) []vScn {
 				return []string{"updU"}, []string{"reqA"}, nil
 			}),
 	}
+	s6 := mk("S6-write-vs-updateexportoptions", base, func(w *rqWorld) ([]string, []string, map[string]string) {
+		w.request("reqA", wire.WRITE, writeArgs(w.h["/f"], 0, "AB"), nil)
+		updateExport(w, "updU", func(o *ExportOptions) { o.ReadOnly = true; o.AttrCacheSize = 7; o.MaxWorkers = 2 }, func() {
+			rp := &rqReply{}
+			w.replies["reqB"] = rp
+			w.call("reqB", rp, wire.WRITE, writeArgs(w.h["/f"], 2, "CD"), nil)
+		})
+		return []string{"updU"}, []string{"reqA", "reqB"}, map[string]string{"reqB": "ROFS"}
+	})
+	s6.capD = 2 // the tuning side effects (cache and pool resizing) triple the scheduling points
+	scns = append(scns, s6)
 	if thorough {
 		scns = append(scns, mk("S3-two-updates", base, func(w *rqWorld) ([]string, []string, map[string]string) {
 			w.request("reqA", wire.WRITE, writeArgs(w.h["/f"], 0, "AB"), nil)
